@@ -182,6 +182,55 @@ fn run_op(tx: &mut Transaction, op: &Value) -> Value {
                 Err(e) => json!({ "toolerror": e.to_string() }),
             }
         }
+        "decode" => {
+            // decoder totality: every kind must come back with ok/err; a panic is caught by the caller of run_op
+            let kind = op["kind"].as_str().unwrap();
+            let bytes = op.get("hex").map(|h| hx(h)).unwrap_or_default();
+            let text = op.get("text").and_then(|t| t.as_str()).unwrap_or("");
+            let r: Result<(), String> = match kind {
+                "ecies" => ECIESCiphertext::from_bytes(&bytes, op["flag"].as_bool().unwrap_or(false)).map(|_| ()).map_err(|e| e.to_string()),
+                "wif" => PrivateKey::from_wif(text).map(|_| ()).map_err(|e| e.to_string()),
+                "address" => P2PKHAddress::from_string(text).map(|_| ()).map_err(|e| e.to_string()),
+                "xprv" => ExtendedPrivateKey::from_string(text).map(|_| ()).map_err(|e| e.to_string()),
+                "xpub" => ExtendedPublicKey::from_string(text).map(|_| ()).map_err(|e| e.to_string()),
+                "verify_hashbuf" | "sign_digest" | "recover_digest" => {
+                    let key = PrivateKey::from_bytes(&[7u8; 32]).unwrap();
+                    let pk = key.to_public_key().unwrap();
+                    let sig = key.sign_message(b"m").unwrap();
+                    match kind {
+                        "verify_hashbuf" => ECDSA::verify_hashbuf(&bytes, &pk, &sig).map(|_| ()).map_err(|e| e.to_string()),
+                        "sign_digest" => ECDSA::sign_digest_with_deterministic_k(&key, &bytes).map(|_| ()).map_err(|e| e.to_string()),
+                        _ => sig.recover_public_key_from_digest(&bytes).map(|_| ()).map_err(|e| e.to_string()),
+                    }
+                }
+                "aes" => {
+                    let algo = match op["algo"].as_str().unwrap() {
+                        "AES128_CBC" => AESAlgorithms::AES128_CBC,
+                        "AES256_CBC" => AESAlgorithms::AES256_CBC,
+                        "AES128_CTR" => AESAlgorithms::AES128_CTR,
+                        _ => AESAlgorithms::AES256_CTR,
+                    };
+                    let (k, iv, m) = (hx(&op["key"]), hx(&op["iv"]), hx(&op["message"]));
+                    if op["decrypt"].as_bool().unwrap_or(false) {
+                        AES::decrypt(&k, &iv, &m, algo).map(|_| ()).map_err(|e| e.to_string())
+                    } else {
+                        AES::encrypt(&k, &iv, &m, algo).map(|_| ()).map_err(|e| e.to_string())
+                    }
+                }
+                "outpoint" => TxIn::from_outpoint_bytes(&bytes).map(|_| ()).map_err(|e| e.to_string()),
+                "compact" => Signature::from_compact_bytes(&bytes).map(|_| ()).map_err(|e| e.to_string()),
+                "sighash_sig" => SighashSignature::from_bytes(&bytes, &[]).map(|_| ()).map_err(|e| e.to_string()),
+                "tx" => Transaction::from_bytes(&bytes).map(|_| ()).map_err(|e| e.to_string()),
+                "txin" => TxIn::from_hex(&hex::encode(&bytes)).map(|_| ()).map_err(|e| e.to_string()),
+                "txout" => TxOut::from_hex(&hex::encode(&bytes)).map(|_| ()).map_err(|e| e.to_string()),
+                "script" => Script::from_bytes(&bytes).map(|_| ()).map_err(|e| e.to_string()),
+                other => Err(format!("unknown decode kind {}", other)),
+            };
+            match r {
+                Ok(()) => json!({"ok": true}),
+                Err(e) => json!({ "err": e }),
+            }
+        }
         "der_roundtrip" => match Signature::from_der(&hx(&op["bytes"])) {
             Ok(sig) => json!({ "ok": hex::encode(sig.to_der_bytes()) }),
             Err(e) => json!({ "err": e.to_string() }),
